@@ -47,7 +47,7 @@ def run(job):
 def main():
     want = sys.argv[1:]
     jobs = []
-    for d in sorted(glob.glob(os.path.join(VERIF, "twins", "*", "patch.diff"))):
+    for d in sorted(glob.glob(os.path.join(VERIF, os.environ.get("TWIN_DIR", "twins"), "*", "patch.diff"))):
         n = os.path.basename(os.path.dirname(d))
         if not want or n in want:
             jobs.append((n, d))
